@@ -28,6 +28,10 @@ func c02Imports(r *Run) {
 	r.Floor("C02.Q10", 3)
 	r.ImportFrom(runC10, map[string]string{"C10.R8": "C02.Q10"}, map[string]string{
 		"C02.Q10": "the up-to-date comparison and pod creation build the node-resources annotation key from the same roles (otherwise a fresh pod is judged outdated and replaced for ever: no fixpoint)"})
+	// C02.Q12: a per-batch throttle must let the batch run once the period has elapsed (inverted, no
+	// deletion batch ever runs again after the first one and the rollout stalls)
+	r.RuleDoc("C02.Q12", "per-batch throttles (time since the PodDeletion / PodCreation condition versus a period) let the batch run once the period has elapsed")
+	c09BatchThrottles(r, "C02.Q12")
 	r.Floor("C02.Q9", 6)
 	r.ImportFrom(runC03, map[string]string{"C03.R3": "C02.Q9"}, map[string]string{
 		"C02.Q9": "the creation/deletion budgets are computed from the matching counters and spec values, percentages rounded up (a budget that is wrongly 0 stalls the rollout for ever)"})
